@@ -48,4 +48,8 @@ SpecT(sw, x) ==
     \* compact printing of a one-character string / key
     [] sw[1] = "print_str" -> <<"text">> \o Pad(Render(VStr(<<x>>), Compact), 9)
     [] sw[1] = "print_key" -> <<"text">> \o Pad(Render(VObj(<<Entry(<<x>>, VNull)>>), Compact), 16)
+    \* the width the layout decision must attribute to a one-character string / key: the smallest Width limit under which
+    \* ["x"] / {"x":null} still stays on one line is the number of characters of its one-line form (C13)
+    [] sw[1] = "width_str" -> <<"width", Len(OneLine(VArr(<<VStr(<<x>>)>>), Compact))>>
+    [] sw[1] = "width_key" -> <<"width", Len(OneLine(VObj(<<Entry(<<x>>, VNull)>>), Compact))>>
 =============================================================================
